@@ -47,6 +47,19 @@ impl Args {
     }
 }
 
+/// The case being evaluated, and where the panic hook records it: when the implementation
+/// panics while already unwinding (e.g. in the Drop of a removal iterator) the process
+/// aborts and nothing can be caught; the hook has by then written the case that did it.
+static CURRENT_CASE: std::sync::Mutex<String> = std::sync::Mutex::new(String::new());
+static PANIC_FILE: std::sync::OnceLock<String> = std::sync::OnceLock::new();
+
+fn set_current(c: &str) {
+    if let Ok(mut g) = CURRENT_CASE.try_lock() {
+        g.clear();
+        g.push_str(c);
+    }
+}
+
 /// Writer of (case, implementation result) pairs; keeps only the cases of this shard.
 pub struct Out {
     cases: BufWriter<File>,
@@ -64,6 +77,9 @@ impl Out {
         std::fs::create_dir_all(&args.out).unwrap();
         let c = File::create(format!("{}/cases.{}.txt", args.out, args.shard)).unwrap();
         let r = File::create(format!("{}/impl.{}.txt", args.out, args.shard)).unwrap();
+        let pf = format!("{}/panic.{}.txt", args.out, args.shard);
+        let _ = std::fs::remove_file(&pf);
+        let _ = PANIC_FILE.set(pf);
         Out {
             cases: BufWriter::with_capacity(1 << 20, c),
             results: BufWriter::with_capacity(1 << 20, r),
@@ -98,6 +114,7 @@ impl Out {
     pub fn case(&mut self, case: impl FnOnce() -> String) {
         if self.mine() {
             let c = case();
+            set_current(&c);
             let r = if self.cases_only { String::new() } else { (self.eval)(&c) };
             self.emit(&c, &r);
         }
@@ -107,6 +124,7 @@ impl Out {
     /// identically in every shard call this for every case).
     pub fn case_str(&mut self, c: &str) {
         if self.mine() {
+            set_current(c);
             let r = if self.cases_only { String::new() } else { (self.eval)(c) };
             self.emit(c, &r);
         }
@@ -186,7 +204,16 @@ pub fn guarded(f: impl FnOnce() -> String + std::panic::UnwindSafe) -> String {
 }
 
 pub fn quiet_panics() {
-    std::panic::set_hook(Box::new(|_| {}));
+    std::panic::set_hook(Box::new(|_| {
+        if let Some(path) = PANIC_FILE.get() {
+            if let Ok(g) = CURRENT_CASE.try_lock() {
+                use std::io::Write;
+                if let Ok(mut f) = std::fs::OpenOptions::new().create(true).append(true).open(path) {
+                    let _ = writeln!(f, "{}", g.as_str());
+                }
+            }
+        }
+    }));
 }
 
 /// `eval` mode: case lines on stdin, implementation results on stdout.
